@@ -349,7 +349,9 @@ def _same(a, b):
 # ------------------------------------------------------------------ compositions
 
 H = ["np.floor(x)", "np.ceil(x)", "np.sign(x)", "np.round(x)", "np.trunc(x)", "(x > 0.3)", "np.argmax(x)", "np.floor_divide(x, 0.7)", "np.rint(x)",
-     "np.count_nonzero(x > 0)", "x.shape[0]", "np.isfinite(x)", "np.logical_and(x > 0, x < 1)", "np.fix(x)"]
+     "np.count_nonzero(x > 0)", "x.shape[0]", "np.isfinite(x)", "np.logical_and(x > 0, x < 1)", "np.fix(x)",
+     # conversions to an integer / boolean dtype are piecewise constant as well
+     "x.astype(int)", "x.astype('int32') * 1.0", "x.astype(bool)", "np.sum(x.reshape(1, -1), axis=0, dtype=int)"]
 
 
 def compose_factory(quick, seed):
@@ -374,15 +376,19 @@ def compose_factory(quick, seed):
                     got = onp.asarray(ag.elementwise_grad(f)(x))
                 else:
                     got = onp.array([onp.asarray(ag.make_jvp(f)(x)(e)[1])[i] for i, e in enumerate(onp.eye(3))])
+            except NotImplementedError as e:
+                got = None          # a missing forward rule (e.g. astype has none): a loud failure, not this property's subject
             except Exception as e:
                 got = "%s: %s" % (type(e).__name__, str(e)[:100])
-        return src, mode, got, want
+        return src, mode, got, want, hx
 
     def judge(ch, out):
-        src, mode, got, want = out
+        src, mode, got, want, hx = out
         v = None
+        if got is None:
+            return dict(v=None, nontrivial=False, outcome="no-rule", counts={"no-forward-rule": 1}, sample=dict(choices=list(ch.choices), f="lambda x: " + src, mode=mode))
         if isinstance(got, str) or got.shape != want.shape or not onp.all(onp.abs(got - want) <= 1e-14 * (1 + onp.abs(want))):
-            v = violation(PROP, "compose", "-", mode, "raised" if isinstance(got, str) else "wrong-derivative", dict(mode=mode), ch.choices, dict(f="lambda x: " + src),
+            v = violation(PROP, "compose", "-", mode, "raised" if isinstance(got, str) else "wrong-derivative", dict(mode=mode, h=hx), ch.choices, dict(f="lambda x: " + src),
                           got if isinstance(got, str) else got.tolist(), want.tolist(), "import autograd, autograd.numpy as np\nf = lambda x: %s" % src)
         return dict(v=v, nontrivial=True, outcome=tuple(onp.round(want, 6)), counts={}, sample=dict(choices=list(ch.choices), f="lambda x: " + src, mode=mode, expected=want.tolist()))
 
